@@ -62,7 +62,7 @@ func seqArray(n int) []interface{} {
 
 func c08(r *mon.Run) {
 	r.Rule = "exhaustive: every (n, start, stop, step) with n in 0..N and start/stop/step in {absent} ∪ [-n-3, n+3], in several syntactic positions and on typed Go slices; " +
-		"boundary values ±1, ±2, ±(2^31-1), ±2^31, ±(2^63-2), ±(2^63-1), -2^63 crossed into every position for n in {0,1,2,3,5}; values beyond 64 bits; every non-array operand. " +
+		"boundary values ±1, ±2, ±(2^31-1), ±2^31, ±(2^63-2), ±(2^63-1), -2^63 crossed into every position for n in {0,1,2,3,5}; values beyond 64 bits; every non-array operand; every ordered pair of 20 slice parameter triples as two slice nodes of one expression (multi-select, pipe, hash, nested), the compiled expression searched twice. " +
 		"Oracle: ref.PySliceIndices (CPython PySlice_AdjustIndices in unbounded integers). Non-trivial = distinct (expression, document) whose expected selection is non-empty."
 	r.Exhaustive = true
 	r.Assumptions = []string{"the slice model ref.PySliceIndices equals CPython slicing (checked against a table frozen from CPython in setup self-tests)",
@@ -230,5 +230,36 @@ func c08(r *mon.Run) {
 				t.Nontrivial("U-array:" + expr + ref.Canon(u))
 			}
 		}}
-	r.Exec(main, nonArr)
+	// two slice nodes in one expression (and one compiled expression searched twice): state kept between
+	// slice evaluations - defaults, computed bounds - must not carry over from one slice to the next
+	triples := [][3]string{{"", "", ""}, {"1", "", ""}, {"", "2", ""}, {"", "", "-1"}, {"", "", "2"}, {"1", "3", ""}, {"3", "1", "-1"}, {"-2", "", ""}, {"", "-2", ""}, {"", "", "-2"},
+		{"7", "", ""}, {"", "7", ""}, {"0", "10", "3"}, {"-1", "", "-1"}, {"", "0", "-1"}, {"4", "", "-3"}, {"-3", "-1", ""}, {"1", "4", "2"}, {"6", "2", "-2"}, {"", "", "1"}}
+	T := len(triples)
+	two := mon.Workload{Name: "two-slices", N: T * T * 4,
+		Describe: func(i int) string { return fmt.Sprint("two-slices case ", i) },
+		Do: func(i int, t *mon.Tally) {
+			form := i % 4
+			k := i / 4
+			a, b := triples[k/T], triples[k%T]
+			sa, sb := gen.StSliceS(a[0], a[1], a[2]), gen.StSliceS(b[0], b[1], b[2])
+			var tree *gen.Expr
+			switch form {
+			case 0:
+				tree = gen.MultiList(gen.Chain(gen.Current(), sa), gen.Chain(gen.Current(), sb))
+			case 1:
+				tree = gen.Pipe(gen.Chain(nil, sa), gen.Chain(nil, sb))
+			case 2:
+				tree = gen.MultiHash([]gen.Key{{Name: "p"}, {Name: "q"}}, []*gen.Expr{gen.Chain(gen.Current(), sa, gen.StIndex(0)), gen.Chain(gen.Paren(gen.Chain(gen.Current(), sb)), gen.StIndex(-1))})
+			default:
+				tree = gen.Func("not_null", gen.Chain(gen.LitJSON("null"), sa), gen.Chain(gen.Paren(gen.Chain(gen.Current(), sa)), sb))
+			}
+			doc := seqArray(8)
+			expr := gen.SpellTight(tree)
+			cx := &caseCtx{r, t, "two-slices", i}
+			res, _, _ := cx.runBoth(tree, expr, doc)
+			if nonNull(res) {
+				t.NontrivialDistinct(1)
+			}
+		}}
+	r.Exec(main, nonArr, two)
 }
